@@ -126,6 +126,26 @@ def handle (op : String) : P String :=
       | .ok t => pure ("ok 1 " ++ outText t)
       | .error => pure "ok 0"
       | .unsupported => pure "unsupported format"
+  | "dumps" => do
+      let d ← pJ; pEnd
+      pure ("ok " ++ outText (dumps d))
+  | "pp" => do
+      let desired ← pNum; let t ← pText; pEnd
+      pure ("ok " ++ outText (prettyPrint desired t))
+  | "ppdoc" => do
+      let desired ← pNum; let d ← pJ; pEnd
+      pure ("ok " ++ outText (prettyPrint desired (dumps d)))
+  | "loads" => do
+      let t ← pText; pEnd
+      match loads t with
+      | .ok v => pure ("ok " ++ outJ v)
+      | .bad => pure "ok-bad"
+      | .unsupported => pure "unsupported float"
+  | "utf8" => do
+      let b ← pBytes; pEnd
+      match utf8Decode b with
+      | some t => pure ("ok 1 " ++ outText t)
+      | none => pure "ok 0"
   | "timestamp" => do
       let t ← pNum; pEnd
       pure ("ok " ++ outText (formatTimestamp t))
